@@ -4,7 +4,7 @@ source.
 Correspondence: tex2txt.tex2txt of /repo vs the extracted model (scanner,
 expander, blank-line pass, get_txt_pos, phrase replacement, language
 splitting) on the parser stream x option matrix; oracle = the statement."""
-import random
+import os, random
 import core, parsecase, universe, shellrun
 
 PROP_FILE = 'props/C01.v'
@@ -49,6 +49,14 @@ DIRECTED = [
     ('wort und so weiter', {'repl': ['und so & a\\\\b \\t c']}),
     ('so dass', {'repl': ['so dass & x\\1y']}),
     ('', {}), ('\\', {}), ('$', {}), ('{', {}), ('\\begin', {}),
+    # a macro that defines a macro, called in the definition text / in a file
+    # longer than the source: the text of the inner macro maps into the source
+    ('A \\term B', {'defs': '% ' + 'x' * 300 + '\n\\newcommand{\\mkterm}{\\newcommand{\\term}{some long text}}\n'
+                               '\\mkterm\n'}),
+    ('\\LTinput{mk.tex}A \\term B \\termb{q}', {'files': {
+        'mk.tex': '% ' + 'y' * 300 + '\n\\newcommand{\\mkterm}{\\newcommand{\\term}{inner text}'
+                  '\\newcommand{\\termb}[1]{<>}}\n\\mkterm\n'}}),
+    ('A \\term B', {'defs': '% ' + 'z' * 300 + '\n\\def\\mkterm{\\def\\term{deftext here}}\\mkterm\n'}),
     # short insertions that start with white space (multi-language mode)
     ('\\usepackage{babel}Hello \\foreignlanguage{german}{  Welt} and more text here.',
      {'multi': True, 'lang': 'en-GB'}),
@@ -170,8 +178,15 @@ def run(tier, seed, build, res):
     n = 600 if tier == 'quick' else 20000
     cases = list(universe.gen_cases(rng, n))
     for latex, o in DIRECTED:
-        cases.append((parsecase.T2T(latex, files=dict(universe.FILES), **o), None,
-                      'directed'))
+        o = dict(o)
+        fs = dict(universe.FILES)
+        extra = o.pop('files', {})
+        fs.update(extra)
+        for n_, t_ in extra.items():
+            # the implementation reads \LTinput files from the working directory
+            with open(os.path.join(universe.scratch_dir(), n_), 'w', encoding='utf-8', newline='') as f_:
+                f_.write(t_)
+        cases.append((parsecase.T2T(latex, files=fs, **o), None, 'directed'))
     for j in core.load_corpus('C01'):
         cases.append((parsecase.T2T.from_json(j), None, 'corpus'))
     for i in range(0, len(cases), 2000):
